@@ -48,6 +48,7 @@ class Model(LogicType.Model[Meta.values]):
 
     def finish(self):
         self._check_not_finished()
+        self._enforce_access()
         self._complete_frames()
         for w, frame in self.frames.items():
             self._complete_identity(w)
